@@ -7,6 +7,7 @@ package h
 import (
 	"fmt"
 	"strings"
+	"unsafe"
 
 	"github.com/rminnich/go9p"
 	"github.com/rminnich/go9p/vsim/rt"
@@ -64,6 +65,7 @@ type Inv struct {
 	Flushed  bool // implementation called req.Flush() for it
 	answeredByFlush bool
 	FidType  uint8 // type of the fid when the implementation was entered
+	hb       uint64
 }
 
 type sUser struct {
@@ -111,10 +113,15 @@ func (u *sUsers) Uname2User(n string) go9p.User {
 func (u *sUsers) Gid2Group(gid int) go9p.Group    { return &sGroup{gid} }
 func (u *sUsers) Gname2Group(n string) go9p.Group { return nil }
 
+type connIdx struct {
+	c   *go9p.Conn
+	idx int
+}
+
 type ScriptFS struct {
 	x       *Ctx
 	Log     []*Inv
-	conns   map[*go9p.Conn]int
+	conns   []connIdx // slices, not maps: see case.go on the race detector
 	NConn   int
 	PlanFor func(inv *Inv) *Plan
 	// authentication script
@@ -123,12 +130,12 @@ type ScriptFS struct {
 	Dotu         func(conn int) bool // negotiated dialect per connection, for expected replies
 	// flush hook: called when the implementation's Flush sees target
 	flushes []*Inv
-	pendingFlush map[*go9p.SrvReq]bool
+	pendingFlush []*go9p.SrvReq
 	authErrNext  bool // the authentication callback of the request in flight must refuse
 }
 
 func NewScriptFS(x *Ctx) *ScriptFS {
-	return &ScriptFS{x: x, conns: map[*go9p.Conn]int{}, pendingFlush: map[*go9p.SrvReq]bool{}}
+	return &ScriptFS{x: x}
 }
 
 func userID(f *go9p.SrvFid) int {
@@ -148,8 +155,10 @@ func fnvBytes(b []byte) uint64 {
 }
 
 func (f *ScriptFS) connIdx(c *go9p.Conn) int {
-	if i, ok := f.conns[c]; ok {
-		return i
+	for _, ci := range f.conns {
+		if ci.c == c {
+			return ci.idx
+		}
 	}
 	return -1
 }
@@ -183,7 +192,19 @@ func (f *ScriptFS) newInv(op string, req *go9p.SrvReq) *Inv {
 	inv.Key = fmt.Sprintf("%d/%d/%d/%d", inv.Conn, tc.Type, tc.Fid, tc.Offset)
 	inv.Uniq = splitmix(uint64(inv.Conn+1)<<48 ^ uint64(tc.Tag)<<32 ^ uint64(inv.Seq)<<8 ^ uint64(tc.Type))
 	f.Log = append(f.Log, inv)
+	// a real implementation records the request in a table under its own lock,
+	// where its Flush handler finds it: publish that edge to the race detector
+	rt.HBRelease(unsafe.Pointer(&inv.hb))
 	return inv
+}
+
+func (f *ScriptFS) isPendingFlush(r *go9p.SrvReq) bool {
+	for _, q := range f.pendingFlush {
+		if q == r {
+			return true
+		}
+	}
+	return false
 }
 
 func (f *ScriptFS) plan(inv *Inv) *Plan {
@@ -307,7 +328,7 @@ func (f *ScriptFS) setExpect(inv *Inv, variant int, m *Msg) {
 func (f *ScriptFS) dispatch(op string, req *go9p.SrvReq) {
 	inv := f.newInv(op, req)
 	p := f.plan(inv)
-	if f.pendingFlush[req] && p.OnFlush != 0 {
+	if f.isPendingFlush(req) && p.OnFlush != 0 {
 		// the framework told us to flush this request before handing it to us
 		switch p.OnFlush {
 		case 1:
@@ -384,7 +405,7 @@ func (f *ScriptFS) ConnOpened(c *go9p.Conn) {
 	// the simulated transport names the server end "srv<N>"
 	idx := -1
 	fmt.Sscanf(c.Id, "srv%d-peer", &idx)
-	f.conns[c] = idx
+	f.conns = append(f.conns, connIdx{c, idx})
 	f.Log = append(f.Log, &Inv{Seq: len(f.Log), Step: rt.Step(), Op: "connopened", Conn: idx})
 	f.NConn++
 }
@@ -452,8 +473,11 @@ func (f *ScriptFS) onFlush(target *go9p.SrvReq) {
 	}
 	inv := &Inv{Seq: len(f.Log), Step: rt.Step(), Op: "flush", Conn: f.connIdx(target.Conn), Tag: target.Tc.Tag, TcType: target.Tc.Type, Req: nil}
 	f.Log = append(f.Log, inv)
+	if ti != nil {
+		rt.HBAcquire(unsafe.Pointer(&ti.hb))
+	}
 	if ti == nil || ti.Plan == nil {
-		f.pendingFlush[target] = true
+		f.pendingFlush = append(f.pendingFlush, target)
 		f.x.Probe("flushop-called-before-implementation-saw-the-request")
 		return
 	}
